@@ -43,6 +43,36 @@ def reachable_local(f, roots):
     return seen
 
 
+def reachable_mono(f, roots, skip_kinds=("drop_unwind",)):
+    """crate-local bodies reachable from `roots` in the monomorphic instance graph: unlike reachable_local this
+    follows calls that come back from upstream generic code (a hand-written Debug / Display / PartialEq / Drop /
+    Serialize impl called by std or a dependency), function references, closures, vtable methods and drop glue
+    (drops that only run while unwinding from a panic are skipped)"""
+    m = f.mono
+    nodes = m["nodes"]
+    adj = {}
+    for a, b, k in m["edges"]:
+        if k in skip_kinds:
+            continue
+        adj.setdefault(a, []).append(b)
+    want = set(roots)
+    # coroutine bodies of async roots are reached through the closure edges of the graph
+    todo = [i for i, nd in enumerate(nodes) if nd["path"] in want]
+    seen = set()
+    while todo:
+        x = todo.pop()
+        if x in seen:
+            continue
+        seen.add(x)
+        todo += adj.get(x, [])
+    out = set(reachable_local(f, roots))
+    for i in seen:
+        p = nodes[i]["path"]
+        if nodes[i]["local"] and p in f.bodies:
+            out.add(p)
+    return sorted(out)
+
+
 def discr_switch_width(f, body, adt):
     """largest number of targets of a switch on the discriminant of a place of type `adt`"""
     best = 0
